@@ -815,6 +815,20 @@ pub static ROWS: &[Row] = rows![
     },
     "Span::try_from(SignedDuration)" => |a| res(Span::try_from(a.du1())),
     "Span::try_from(Duration)" => |a| res(Span::try_from(a.udur())),
+    // ---- text -> value (FromStr returns a Result like any other constructor): unit values up
+    // to the limits of i64, where the unit conversions inside the parsers can overflow
+    "SignedDuration::from_str(ISO hours)" => |a| res(format!("{}PT{}H", if a.n1() < 0 { "-" } else { "" }, a.n1().unsigned_abs()).parse::<SignedDuration>()),
+    "SignedDuration::from_str(ISO minutes)" => |a| res(format!("{}PT{}M", if a.n1() < 0 { "-" } else { "" }, a.n1().unsigned_abs()).parse::<SignedDuration>()),
+    "SignedDuration::from_str(ISO seconds)" => |a| res(format!("{}PT{}.{:09}S", if a.n1() < 0 { "-" } else { "" }, a.n1().unsigned_abs(), a.w().unsigned_abs() % 1_000_000_000).parse::<SignedDuration>()),
+    "SignedDuration::from_str(ISO h m s)" => |a| res(format!("{}PT{}H{}M{}S", if a.n1() < 0 { "-" } else { "" }, a.n1().unsigned_abs(), a.incr().unsigned_abs(), a.w().unsigned_abs()).parse::<SignedDuration>()),
+    "SignedDuration::from_str(friendly)" => |a| res(format!("{}h {}m {}s {}ms {}us {}ns{}", a.n1().unsigned_abs(), a.incr().unsigned_abs(), a.w().unsigned_abs(), a.h().unsigned_abs(), a.y().unsigned_abs(), a.b(0).unsigned_abs(), if a.n1() < 0 { " ago" } else { "" }).parse::<SignedDuration>()),
+    "SignedDuration::from_str(friendly fraction)" => |a| res(format!("{}.{:09}{}", a.n1().unsigned_abs(), a.w().unsigned_abs() % 1_000_000_000, ["h", "m", "s", "ms", "us"][(a.sel() % 5) as usize]).parse::<SignedDuration>()),
+    "Span::from_str(ISO)" => |a| res(format!("{}P{}Y{}M{}W{}DT{}H{}M{}S", if a.n1() < 0 { "-" } else { "" }, a.y().unsigned_abs(), a.h().unsigned_abs(), a.b(0).unsigned_abs(), a.w().unsigned_abs(), a.n1().unsigned_abs(), a.incr().unsigned_abs(), a.b(1).unsigned_abs()).parse::<Span>()),
+    "Span::from_str(ISO hours)" => |a| res(format!("PT{}H", a.n1().unsigned_abs()).parse::<Span>()),
+    "Span::from_str(friendly)" => |a| res(format!("{}y {}mo {}w {}d {}h {}m {}s {}ms {}us {}ns", a.y().unsigned_abs(), a.h().unsigned_abs(), a.b(0).unsigned_abs(), a.w().unsigned_abs(), a.n1().unsigned_abs(), a.incr().unsigned_abs(), a.b(1).unsigned_abs(), a.b(2).unsigned_abs(), a.b(3).unsigned_abs(), a.b(4).unsigned_abs()).parse::<Span>()),
+    "Span::from_str(friendly fraction)" => |a| res(format!("{}.{:09}{}", a.n1().unsigned_abs(), a.w().unsigned_abs() % 1_000_000_000, ["h", "m", "s", "ms", "us"][(a.sel() % 5) as usize]).parse::<Span>()),
+    "Timestamp::from_str(fields)" => |a| res(format!("{:04}-{:02}-{:02}T{:02}:{:02}:{:02}.{:09}{}{:02}:{:02}", a.y(), a.b(0), a.b(1), a.b(2), a.b(3), a.b(4), a.w().unsigned_abs() % 1_000_000_000, if a.h() < 0 { "-" } else { "+" }, a.h().unsigned_abs() % 100, a.sel() % 60).parse::<Timestamp>()),
+    "Date::from_str(fields)" => |a| res(format!("{}{:04}-{:02}-{:02}", if a.y() < 0 { "-00" } else { "" }, a.y().unsigned_abs(), a.b(0), a.b(1)).parse::<Date>()),
     // ---- SignedDuration
     "SignedDuration::round" => |a| res(a.du1().round(SignedDurationRound::new().smallest(a.u1()).mode(a.mode()).increment(a.incr()))),
     "SignedDuration::try_from_secs_f64" => |a| res(SignedDuration::try_from_secs_f64(a.f())),
